@@ -99,3 +99,27 @@ for h in ["k_chan_deliver_1ch_fresh", "k_chan_deliver_2ch_b0", "k_chan_deliver_1
         functions=["decode::FlacChannelReader::fill_buf", "decode::FlacChannelReader::consume"],
         contract="FlacChannelReader: at position p fill_buf() == stream[p..end of block] per channel, consume(k) moves to p+k, end of stream is reported on every later call (nothing twice)",
         stubs=["decode::Decoder::read_frame (abstract stream)"], timeout=300)
+
+S = "stream::verif_k::"
+add("K-hdr_parse_subset_vs_rfc", ["C03", "C05", "C16", "C17", "C04"], S + "k_hdr_parse_subset_vs_rfc", domain="full",
+    functions=["stream::FrameHeader::parse", "stream::FrameHeader::from_reader (FromBitStream)", "stream::BlockSize::from_reader", "stream::SampleRate::from_reader",
+               "stream::ChannelAssignment::from_reader", "stream::BitsPerSample::from_reader", "stream::FrameNumber::from_reader"],
+    contract="FrameHeader (subset form) on every 128-bit string: Ok(h) => RFC 9639 9.1 reading is not MustReject (no reserved block-size/rate/channel/bps code, "
+             "legal number coding, block size <= 65535), no STREAMINFO reference, h == RFC values, exactly the header's bits consumed; valid self-describing header => Ok; never panics",
+    timeout=300)
+add("K-hdr_parse_streaminfo_vs_rfc", ["C03", "C05", "C04"], S + "k_hdr_parse_streaminfo_vs_rfc", domain="full",
+    functions=["stream::FrameHeader::parse", "stream::FrameHeader::from_reader (FromBitStreamWith<Streaminfo>)"],
+    contract="FrameHeader with STREAMINFO on every 128-bit string and every STREAMINFO: Ok(h) => RFC reading not MustReject, h == RFC values with references resolved, "
+             "block size <= max block size, rate / channel count / bits-per-sample equal STREAMINFO; valid consistent header => Ok", timeout=300)
+add("K-hdr_build_vs_rfc", ["C02", "C16", "C17"], S + "k_hdr_build_vs_rfc", domain="full",
+    functions=["stream::FrameHeader::build", "stream::BlockSize::to_writer", "stream::SampleRate::to_writer", "stream::ChannelAssignment::to_writer",
+               "stream::BitsPerSample::to_writer", "stream::FrameNumber::to_writer", "stream::BlockSize::try_from(u16)", "stream::SampleRate::try_from(u32)", "stream::BitsPerSample::from"],
+    contract="FrameHeader::build for every constructible header (block 1..65535, rate < 2^20, bps 1..32, number < 2^36, any assignment): Ok; the bits are a Valid RFC 9639 9.1 header "
+             "(sync, zero reserved bit, shortest number coding) that reads back to the same values; whole bytes <= 15; STREAMINFO references only for values without a header code",
+    timeout=300)
+for h, fn in [("k_hdr_read_subset_crc8_gate", "stream::FrameHeader::read_subset"), ("k_hdr_read_crc8_gate", "stream::FrameHeader::read"), ("k_hdr_write_crc8_gate", "stream::FrameHeader::write / write_subset")]:
+    add("K-" + h[2:], ["C05", "C16", "C02"] if "read" in h else ["C02", "C16"], S + h, domain="full",
+        functions=[fn, "crc::CrcReader::read" if "read" in h else "crc::CrcWriter::write", "crc::Crc8::update"],
+        contract="CRC-8 gate: header released iff field parse Ok and CRC-8 (RFC polynomial) over exactly the header's bytes is 0" if "read" in h
+        else "bytes delivered == header field bytes ++ CRC-8 (RFC polynomial) of those bytes",
+        stubs=["stream::FrameHeader::parse (contract: K-hdr_parse_*)" if "read" in h else "stream::FrameHeader::build (contract: K-hdr_build_vs_rfc)"], timeout=200)
